@@ -21,7 +21,7 @@ type Case struct {
 
 func gen(t *rapid.T) Case {
 	var c Case
-	c.Dst = projkit.GenDef(t, projkit.Opts{SmallShift: true})
+	c.Dst = projkit.GenDef(t, projkit.Opts{SmallShift: true, WithAxis: true})
 	c.SrcSame = rapid.Bool().Draw(t, "srcsame")
 	c.Lon, c.Lat = projkit.GenPosition(t, c.Dst)
 	return c
@@ -160,7 +160,7 @@ func TestProp(t *testing.T) {
 		ID: "C08",
 		Rule: "rapid: PROJ.4 definitions for longlat, merc (k_0 or lat_ts), lcc (1SP/2SP, optional k_0), aea, eqdc, tmerc, utm (zones 1-60, north/south), krovak; ellipsoid by name " +
 			"(all 43 built-in names incl. sphere), a+rf, a+b or default; datum none / named (all built-in 3- and 7-parameter names, WGS84) / +towgs84 with 3 or 7 terms; false " +
-			"origins, scale, units m/ft/us-ft/+to_meter, prime meridian by name or degrees; standard parallels on one side of the equator. Positions inside the usable region " +
+			"origins, scale, units m/ft/us-ft/+to_meter, prime meridian by name or degrees; +axis (enu, neu, wnu, esu, wsu, end, swu) in a third of the cases; standard parallels on one side of the equator. Positions inside the usable region " +
 			"(|lon-lon_0|<=3.5 deg and |lat|<=84 for tmerc/utm, |lat|<=85 for merc, within 30 deg of the parallels on the cone's side and |lon-lon_0|<=90 for conics, 47-52N 12-23E " +
 			"for krovak). Source geographic system alternates between WGS84 and the system on the destination's own datum. Oracle with fresh parses and transformers for every " +
 			"stage: geo->proj->geo within 1e-6 deg (lon modulo 360), then proj->geo->proj within 0.01 m in the destination unit (0.02 m when a small +towgs84 shift from WGS84 is part of the round trip; named datums with large shifts and non-WGS84 ellipsoids with a shift are always paired with the geographic system on their own datum, because a 2-D round trip cannot carry the ellipsoidal height), " +
